@@ -63,7 +63,7 @@ Fixpoint well_delimited (q : N) (l : list N) (esc : bool) : bool :=
   | [] => negb esc
   | c :: r => if esc then well_delimited q r false
               else if c =? 92 then well_delimited q r true
-              else if (c =? q) || (c =? 10) then false else well_delimited q r false
+              else if (c =? q) || (c =? 10) || (c =? 13) || (c =? 12) then false else well_delimited q r false
   end.
 
 Definition token_denotes (t : list N) (want : list N) : bool :=
@@ -130,10 +130,11 @@ Fixpoint bad_escape (l : list N) (st : bst) : bool :=
 Definition known_emit (c : case) : bool :=
   pu_then_hex (denoted c) || bad_escape (c_body c) BNormal.
 
-(* K3 (F26b and relatives): quote(unquote(s)) for a string stored with any backslash escape *)
+(* K3: quote(unquote(s)) when s denotes a line break (LF, CR, FF): unquote decodes the escape, quote does
+   not escape it again, and Property::write prints a newline as a space *)
+Definition is_line_break (c : N) : bool := (c =? 10) || (c =? 13) || (c =? 12).
 Definition known_qu (c : case) : bool :=
-  known_emit c ||
-  match store_dq (c_body c) with Some v => contains 92 v | None => false end.
+  known_emit c || existsb is_line_break (denoted c).
 
 Definition b2z (b : bool) : Z := if b then 1%Z else 0%Z.
 Definition run (c : case) : list Z :=
